@@ -986,4 +986,44 @@ theorem sentinel_methodBacked (P : Params) (op : SentinelOp) : MethodBacked sent
         have : qsrTok ≠ tok := fun e => h2 e.symm
         simp [payTotal, this]
 
+/-! ### liquidity (stake entries) -/
+
+theorem liquidity_methodBacked (P : Params) (op : LiquidityOp) : MethodBacked liquidityOwed (op.method P) := by
+  intro st c st' ps h tok
+  cases op with
+  | stake d =>
+    simp only [LiquidityOp.method, liquidityStake] at h
+    split at h
+    · cases h
+    · split at h
+      · cases h
+      · split at h
+        · cases h
+        · simp only [Option.some.injEq, Prod.mk.injEq] at h
+          obtain ⟨hs, hp⟩ := h
+          subst hs; subst hp
+          have := total_put_le (fun e : LStakeE => if e.tok = tok then e.amount else 0) (c.sender, c.hash)
+            ⟨c.amount, c.token, weightedLiquidityStake P c.amount d, c.now, 0, c.now + d⟩ st.entries
+          simp only [liquidityOwed, payTotal]
+          by_cases hc : tok = c.token
+          · subst hc; simp at this ⊢; omega
+          · have hc' : ¬ c.token = tok := fun e => hc e.symm
+            simp [hc, hc'] at this ⊢; omega
+  | cancel id =>
+    simp only [LiquidityOp.method, cancelLiquidityStake] at h
+    split at h
+    · cases h
+    · split at h
+      · cases h
+      · rename_i e he
+        split at h
+        · cases h
+        · simp only [Option.some.injEq, Prod.mk.injEq] at h
+          obtain ⟨hs, hp⟩ := h
+          subst hs; subst hp
+          have := total_put_add_le (fun e : LStakeE => if e.tok = tok then e.amount else 0)
+            { e with revoke := c.now, amount := 0 } st.entries he
+          simp only [liquidityOwed, payTotal]
+          simp at this ⊢; omega
+
 end ZV.Contracts
